@@ -15,6 +15,8 @@ import json
 import os
 import re
 
+import vcheck
+
 
 HERE = os.path.dirname(os.path.dirname(os.path.abspath(__file__)))
 EMPTY_STACK_FINDING = "empty-stack-weight-lost"
@@ -132,10 +134,12 @@ def wire_defs(prefix, wires):
 def eval_cases(ck, name, cases, hashes):
     """-> (mismatch ids, {id: spec result 1|2}, hash mismatch ids, raw output)"""
     txt = (HEADER + wire_defs("c", [case_wire(c) for c in cases]) + wire_defs("h", [hash_wire(h) for h in hashes]) +
-           "Definition D := Eval vm_compute in decode_errors cs.\nPrint D.\n"
-           "Definition M := Eval vm_compute in mismatches cs.\nPrint M.\n"
-           "Definition V := Eval vm_compute in spec_results cs.\nPrint V.\n"
-           "Definition H := Eval vm_compute in hash_mismatches hs.\nPrint H.\n")
+           "Definition ALL := Eval vm_compute in all_results cs.\n"
+           "Definition D := Eval vm_compute in fst (fst (fst ALL)).\nPrint D.\n"
+           "Definition M := Eval vm_compute in snd (fst (fst ALL)).\nPrint M.\n"
+           "Definition V := Eval vm_compute in snd (fst ALL).\nPrint V.\n"
+           "Definition H := Eval vm_compute in hash_mismatches hs.\nPrint H.\n"
+           "Definition Y := Eval vm_compute in snd ALL.\nPrint Y.\n")
     rc, out = ck.coq_eval(name, txt)
     if rc != 0:
         return None, None, None, out
@@ -147,6 +151,10 @@ def eval_cases(ck, name, cases, hashes):
     if not d or not m or not v or not h:
         return None, None, None, out
     ints = lambda s: [int(x) for x in re.findall(r"-?\d+", s or "")]
+    y = re.search(r"Y = \((\d+), (\d+)\)", flat)
+    if y:
+        ck.extra["hypothesis_checked"] = ck.extra.get("hypothesis_checked", 0) + int(y.group(1))
+        ck.extra["hypothesis_holds"] = ck.extra.get("hypothesis_holds", 0) + int(y.group(2))
     if ints(d.group(1)):
         return None, None, None, "cases at positions %s of %s did not decode (wire format / rd_case out of step)" % (ints(d.group(1)), name)
     vv = ints(v.group(1))
@@ -196,6 +204,9 @@ def run_corr(ck):
     if not ck.go_build("proftree"):
         ck.obligation("harness proftree builds against the repository", False, ck.build_out[-1500:])
         return
+    ok, out = ck.coq_make(["model/ProfCase.vo"])
+    if not ck.obligation("coq/model/ProfCase.v (case decoder and oracles) compiles", ok, out[-800:]):
+        return
     n = ck.n(300, 9000)
     cases = []
     corpus = os.path.join(HERE, "corpus", "C16", "cases.jsonl")
@@ -241,6 +252,10 @@ def run_corr(ck):
         mism += m
         spec.update(v)
         hm += h
+    hc, hh = ck.extra.get("hypothesis_checked", 0), ck.extra.get("hypothesis_holds", 0)
+    ck.obligation("hypothesis of tree_conserves (node ids determine the parent on the occurring triples) holds under the real hash "
+                  "on every checked generated profile (%d of %d)" % (hh, hc), hc > 0 and hh == hc,
+                  "a collision of city.CH64>>9 inside one profile: the theorem does not apply to that profile (not a defect by itself)")
     ck.obligation("city16 (model of city.CH64 on 16 bytes) = implementation on %d buffers" % len(hashes), not hm, "ids %s" % hm[:10])
     ck.obligation("correspondence: post_process / merge_trie / bfs = implementation on %d cases" % len(tcases), not mism,
                   "mismatching case ids: %s" % mism[:10])
@@ -290,6 +305,30 @@ def run_corr(ck):
     ck.add_samples([slim(c) for c in tcases if case_size(c) < 40][:3])
 
 
+def run_consts(ck):
+    """translator: constants of the source = constants of the models"""
+    env = dict(os.environ, VERIF_REPO=vcheck.REPO)
+    rc, out = vcheck.sh([os.path.join(HERE, "translate", "gen_proftree")], env=env, timeout=120)
+    ck.checker_cmds.append("translate/gen_proftree")
+    if not ck.obligation("translator gen_proftree read the constants of %s" % vcheck.REPO, rc == 0, out[-1500:]):
+        return
+    ok, out = ck.coq_make(["gen/ProfConsts.vo"])
+    if not ck.obligation("coq/gen/ProfConsts.v compiles", ok, out[-800:]):
+        return
+    txt = ("From Coq Require Import NArith ZArith Bool.\nFrom Qryn Require Import model.Pprof model.ProfTree gen.ProfConsts.\n"
+           "Definition K := Eval vm_compute in (Z.eqb src_nodes_limit the_limit, Z.eqb src_names_limit the_limit, "
+           "Z.leb src_sql_limit the_limit, N.eqb src_depth_clamp depth_clamp, N.eqb src_hash_shift hash_shift, "
+           "N.eqb src_depth_shift depth_shift, Z.eqb src_size_limit 1048576).\nPrint K.\n")
+    rc, out = ck.coq_eval("C16_consts", txt)
+    flat = " ".join(out.split())
+    m = re.search(r"K = \(([a-z, ]+)\)", flat)
+    vals = [x.strip() for x in m.group(1).split(",")] if (rc == 0 and m) else []
+    names = ["MergeTrie node limit = the_limit", "MergeTrie names limit = the_limit", "SQL LIMIT <= the_limit (the guard of merge_is_sum)",
+             "depth clamp", "hash shift", "depth shift", "onProfile size threshold = 1 MiB (what the big classes cross)"]
+    for i, nm in enumerate(names):
+        ck.obligation("source constant: " + nm, len(vals) == len(names) and vals[i] == "true", out[-300:])
+
+
 def run(ck):
     ck.trusted += [
         "C16: the SQL of PlanMergeTraces (arrayMap/arrayFirst projection on the selected sample type, ARRAY JOIN, GROUP BY with sum) is emulated "
@@ -298,5 +337,6 @@ def run(ck):
         "C16: fnId = city.CH64(name) enters as a table computed by the harness with the same library; city.CH64 on the 16-byte node buffer is modelled (city16) and compared",
         "C16: the Tree is modelled for one sample type (the only way reader/service builds it)",
     ]
+    run_consts(ck)
     ck.coq_props()
     run_corr(ck)
